@@ -68,7 +68,7 @@ pub enum RealHandle {
 }
 
 impl RealHandle {
-    fn clone_handle(&self) -> RealHandle {
+    pub fn clone_handle(&self) -> RealHandle {
         match self {
             RealHandle::Node(h) => RealHandle::Node(h.clone()),
             RealHandle::Field(h) => RealHandle::Field(h.clone()),
